@@ -5,7 +5,7 @@
    _mpi_iter_unordered, commit cd002ec: [fb = true]; patch dictionaries sent with ssend,
    commit aeec5f0: [dm = Sync]); the [_refuted] theorems document the pinned algorithms
    ([fb = false]; [dm = sm = Eager]) and the findings F13a / F13b. *)
-From Verif Require Import Prelude Dispatch DispatchP MpiWrite MpiWriteP.
+From Verif Require Import Prelude Dispatch DispatchP MpiWrite MpiWriteP RankMemo RankMemoP.
 From Coq Require Import Permutation.
 Open Scope nat_scope.
 
@@ -543,4 +543,73 @@ Example C06_layout_concrete :
   c06_layout_case [0; 0; 1; 1] None false 1 [0; 1] [0] [[6]; [6]; [3]] 41 15 = 6 /\
   c06_layout_case [0; 1; 1] None true 0 [] [] [] 41 0 = 0 /\
   c06_layout_case [0; 1; 1] None false 1 [0; 1] [0] [[41]] 41 41 = 1.
+Proof. vm_compute. repeat split; reflexivity. Qed.
+
+(* ------------------------------------------------------------------------------------------
+   Ranks are separate PROCESSES living across several library calls (Model/RankMemo.v).
+   The cache directories are shared, process state is private.  A history = (re)builds of tree
+   files (by any rank), overwrites (trees gone) and reads by ranks; the content of a file is a
+   version number (data in the cache + binning).  SPEC: every read returns the version the file
+   holds now.  harness/props/c06_procworld.py runs such histories with one OS process per rank.
+   ------------------------------------------------------------------------------------------ *)
+
+(* the library as it is - no memo across calls: every rank of every world reads the current trees *)
+Theorem C06_world_nomemo_reads_current :
+  forall evs, mreads PNone minit evs = spec_reads none_yet evs.
+Proof. exact nomemo_reads_current. Qed.
+Print Assumptions C06_world_nomemo_reads_current.
+
+(* a per-process memo is compatible with the property when every entry is validated against the
+   on-disk generation stamp of the file it was read from *)
+Theorem C06_world_validated_memo_reads_current :
+  forall evs, mreads PValidated minit evs = spec_reads none_yet evs.
+Proof. exact validated_reads_current. Qed.
+Print Assumptions C06_world_validated_memo_reads_current.
+
+(* hence the reads of the world are those of the single process that runs the same history -
+   whatever the single process does with ITS memo (p) *)
+Theorem C06_world_equals_single_process :
+  forall evs p, mreads PNone minit evs = mreads p minit (single evs) /\
+                mreads PValidated minit evs = mreads p minit (single evs).
+Proof. intros evs p. split; [exact (world_equals_single_process_nomemo evs p)|exact (world_equals_single_process_validated evs p)]. Qed.
+Print Assumptions C06_world_equals_single_process.
+
+(* a private memo that is not validated is invisible while ONE process does everything (so no
+   single-process test and no world whose ranks share their module state can see it) ... *)
+Theorem C06_world_private_memo_single_process_ok :
+  forall r evs, Forall (on_rank r) evs -> mreads PPrivate minit evs = spec_reads none_yet evs.
+Proof. exact private_single_process_current. Qed.
+Print Assumptions C06_world_private_memo_single_process_ok.
+
+(* ... and wrong after a rebuild on ANOTHER rank, for all ranks, files and versions: only the
+   rank that rebuilds can drop its own entry *)
+Theorem C06_world_private_memo_stale_after_foreign_rebuild :
+  forall r r' f v v', r <> r' ->
+  mreads PPrivate minit [MBuild r' f v; MRead r f; MBuild r' f v'; MRead r f] = [Some v; Some v] /\
+  spec_reads none_yet [MBuild r' f v; MRead r f; MBuild r' f v'; MRead r f] = [Some v; Some v'].
+Proof. exact private_stale_after_foreign_rebuild. Qed.
+Print Assumptions C06_world_private_memo_stale_after_foreign_rebuild.
+
+Theorem C06_world_private_memo_refuted :
+  exists evs, mreads PPrivate minit evs <> mreads PPrivate minit (single evs).
+Proof. exact world_private_memo_refuted. Qed.
+Print Assumptions C06_world_private_memo_refuted.
+
+(* the checker of the per-rank reads: code 0 = the observed reads are the current versions *)
+Theorem C06_world_memo_case_sound :
+  forall n evs obs, c06_memo_case n evs obs = 0 -> obs = map enc (spec_reads none_yet evs).
+Proof. exact memo_case_sound. Qed.
+Print Assumptions C06_world_memo_case_sound.
+
+(* non-vacuity: 3 ranks; rank 1 builds file 5 (version 1), ranks 0 and 2 read it, the cache is
+   overwritten (no trees: 0), rank 2 rebuilds (version 2) and everybody reads: code 0.  The same
+   history where rank 0 still gets version 1 after the rebuild: flag 2.  The private memo model
+   produces exactly that stale read, the validated one does not. *)
+Example C06_world_concrete :
+  let h := [MBuild 1 5 1; MRead 0 5; MRead 2 5; MDrop 5; MRead 0 5; MBuild 2 5 2; MRead 0 5; MRead 1 5; MRead 2 5] in
+  c06_memo_case 3 h [1; 1; 0; 2; 2; 2] = 0 /\
+  c06_memo_case 3 h [1; 1; 0; 1; 2; 2] = 2 /\
+  c06_memo_case 2 h [1; 1; 0; 2; 2; 2] = 1 /\
+  map enc (mreads PPrivate minit h) = [1; 1; 0; 1; 2; 2] /\
+  map enc (mreads PValidated minit h) = [1; 1; 0; 2; 2; 2].
 Proof. vm_compute. repeat split; reflexivity. Qed.
